@@ -140,6 +140,9 @@ def mutations(s):
                 mut(dict(node, symbols=node["symbols"] + [node["symbols"][0]]), "enum-symbol-duplicate")
                 mut(dict(node, symbols=node["symbols"] + [5]), "enum-symbol-non-string")
                 mut(dict(node, default="NOT_A_SYMBOL"), "enum-default-not-a-symbol")
+                for bad in ("", 0, False, [], {}, None, 1.5, node["symbols"][0].lower(), node["symbols"][0] + " "):
+                    if bad not in node["symbols"]:
+                        mut(dict(node, default=bad), "enum-default-not-a-symbol:" + json.dumps(bad))
             if t in ("record", "error") and len(node["fields"]) >= 2:
                 f0 = node["fields"][0]["type"]
                 if isinstance(f0, dict) and f0.get("type") in ("record", "enum", "fixed"):
@@ -328,6 +331,8 @@ def run_unit(u, tier):
             ("undefined-ref-forward", R("Later", {"type": "enum", "name": "Later", "symbols": ["A"]})),
             ("undefined-ref-wrong-namespace", {"type": "record", "name": "R", "namespace": "n", "fields": [
                 {"name": "a", "type": {"type": "enum", "name": "o.E", "symbols": ["A"]}}, {"name": "b", "type": "E"}]}),
+            ("undefined-ref-ignored-namespace-attribute", {"type": "record", "name": "com.acme.Order", "namespace": "legacy", "fields": [
+                {"name": "s", "type": {"type": "enum", "name": "Status", "symbols": ["A"]}}, {"name": "t", "type": "legacy.Status"}]}),
             ("named-without-name", {"type": "enum", "symbols": ["A"]}), ("named-without-name", {"type": "fixed", "size": 2}),
             ("named-without-name", {"type": "record", "fields": []}),
             ("default-json-type:union-no-branch", R("int") | {"fields": [{"name": "u", "type": ["null", {"type": "array", "items": "int"}], "default": 5}]}),
@@ -349,6 +354,12 @@ def run_unit(u, tier):
             ("double-int-default", R("int") | {"fields": [{"name": "d", "type": {"type": "double"}, "default": 1}]}),
             ("float-int-default", R("int") | {"fields": [{"name": "d", "type": "float", "default": 1}]}),
             ("forward-ref-inside-own-record", {"type": "record", "name": "R", "fields": [{"name": "r", "type": ["null", "R"], "default": None}]}),
+            ("dotted-name-beats-namespace-attribute", {"type": "record", "name": "com.acme.Order", "namespace": "legacy", "fields": [
+                {"name": "s", "type": {"type": "enum", "name": "Status", "symbols": ["A"]}}, {"name": "l", "type": {"type": "array", "items": {"type": "record", "name": "Line", "fields": [{"name": "s", "type": "Status"}]}}},
+                {"name": "t", "type": "com.acme.Status"}, {"name": "u", "type": ["null", "Line"]}, {"name": "v", "type": {"type": "map", "values": "com.acme.Line"}}]}),
+            ("dotted-name-beats-namespace-attribute-nested", {"type": "record", "name": "Top", "namespace": "t", "fields": [
+                {"name": "o", "type": {"type": "record", "name": "com.acme.Order", "namespace": "legacy", "fields": [{"name": "f", "type": {"type": "fixed", "name": "Id", "size": 2}}]}},
+                {"name": "i", "type": "com.acme.Id"}]}),
             ("same-short-name-two-namespaces", R({"type": "fixed", "name": "a.F", "size": 1}, {"type": "fixed", "name": "b.F", "size": 2})),
         ]:
             expect_accept(fa, res, s, lab, seen)
@@ -359,6 +370,9 @@ def run_unit(u, tier):
     bases = [raw]
     for a, b in namespace_variants(raw):
         bases += [a, b]
+    for a, b in namespace_variants(raw):
+        # a dotted name wins over an explicit namespace attribute, for the type itself and for what it encloses
+        bases.append(dict(b, namespace="legacy.ns"))
     for base in bases:
         expect_accept(fa, res, base, "family", seen)
         valid_defaults(fa, res, base, seen)
